@@ -387,6 +387,7 @@ def main(argv=None):
                     lines.append(f"VIOLATION property={prop} replay={rp} no-failing-input-found")
             solver_s += custom.get("solver_s", 0.0)
             native_evals += custom.get("native_evaluations", 0)
+            native_distinct += custom.get("native_distinct", 0)
             fn_table.extend(custom.get("functions", []))
 
     if not contracts and custom is None:
